@@ -18,6 +18,6 @@ def run(ctx, rep):
     fmtrules.lexfact_rule(ctx, rep)
     fmtrules.kinds_rule(ctx, rep)
     panicrules.evaluate(ctx, rep, ["C17"])
-    rep.floor("PANIC", 10, "audited panic sites")
+    rep.floor("PANIC", 5, "audited panic sites")
     rep.assume("dprint-core's printer terminates and writes every pushed string exactly once in order (trusted dependency)")
     rep.assume("nesting deeper than dprint-core's u8 indentation level (more than 126 nested brackets) is not analysed")
